@@ -76,6 +76,21 @@ def r2(ctx):
     nonneg = {tm.compare(">=", d, 0).key}
     nonpos = {tm.compare("<", d, 0).key, tm.compare("<=", d, 0).key}
     for k, (g, v) in enumerate(pieces):
+        # an eigenvalue of S - rho(Z - U) is exactly 0 for duplicated points or a constant sensor: nothing may divide by d itself
+        gparts0 = g.parts if isinstance(g, And) else [g]
+        excludes_zero = any(p.key in (tm.compare("!=", d, 0).key, tm.compare(">", d, 0).key, tm.compare("<", d, 0).key) for p in gparts0)
+        divs = []
+        for x in tm.subterms(v):
+            if isinstance(x, Poly):
+                for mono, _c in x.terms:
+                    for a_, e_ in mono:
+                        if e_ < 0 and (a_ == d or (isinstance(a_, App) and a_.fn == "abs" and a_.args == (d,))):
+                            divs.append(str(x)[:80])
+        if divs and not excludes_zero:
+            ctx.fail(fi, "the eigenvalue map divides by an eigenvalue d: d is exactly 0 for a rank-deficient input (duplicated points, a constant sensor), "
+                         "the quotient is inf/NaN and Theta is no longer finite", role=f"eigenvalue-map:divides-by-d@{k}",
+                     expected="denominators bounded away from 0: sqrt(d^2 + 4 rho) - d", found=divs[0])
+            continue
         roots = [x for x in tm.subterms(v) if isinstance(x, App) and x.fn == "sqrt" and tm.mentions(x, d)]
         if not roots:
             raise AnalysisError(f"eigenvalue piece without sqrt(d^2 + k): {str(v)[:100]}")
